@@ -147,6 +147,40 @@ def flag_guard_of(f, bb, max_up=64):
     return None
 
 
+def entry_relations(f, bb, max_blocks=24):
+    """Relations that hold on each bool-comparison edge leading into the
+    straight-line region that ends at bb (the disjuncts of an `a || b`
+    rejection): walk backwards over non-switch blocks, stop at switches."""
+    rels = []
+    seen = set()
+    work = [(bb, bb)]
+    while work and len(seen) < max_blocks:
+        cur, via = work.pop()
+        for pb in f.preds(cur):
+            if f.is_cleanup(pb) or (pb, cur) in seen:
+                continue
+            seen.add((pb, cur))
+            t = f.term(pb)
+            if t["k"] != "switch":
+                work.append((pb, cur))
+                continue
+            info = f.switch_info(pb)
+            if not info or info["kind"] != "bool":
+                rels.append(("other", pb))
+                continue
+            rv = f.bool_def(info["on"])
+            if not rv or rv[0] != "bin" or rv[1] not in NEG:
+                rels.append(("other", pb))
+                continue
+            t_true = info["otherwise"]
+            for v_, tgt_ in info["cases"]:
+                if v_ is True:
+                    t_true = tgt_
+            op_ = rv[1] if t_true == cur else NEG[rv[1]]
+            rels.append((op_, var_of(f, rv[2]), var_of(f, rv[3])))
+    return rels
+
+
 def field_terms(f, kd, aops):
     return {name: var_of(f, o) for name, o in zip(kd["fields"], aops)}
 
